@@ -287,21 +287,16 @@ Theorem grand_total_is_sum : forall l rows c,
 Proof. exact calc_grand_total. Qed.
 Print Assumptions grand_total_is_sum.
 
-(* ---- finding: subtotal_posts refuses an account that is posted to both virtually and
-   really ("'equity' cannot accept virtual and non-virtual postings to the same account"),
-   so --subtotal / --by-payee / --dow produce no sums at all for such a journal.  The full
-   statement "subtotal always yields the sums" is false of the faithful model. ---- *)
+(* ---- an account that is posted to both virtually and really is subtotalled like any other
+   (only the equity command refuses it: /repo 58fd328, formerly F25); the witness that used
+   to fail now reports the sum ---- *)
 Definition wit_virt (v : bool) : post :=
   mkPost 0 0 0 (PName [80]) (PName [80]) [65] v 0 (VAmt (mkAmt 1 0 false (Some [36]))).
 
-Theorem subtotal_always_sums_refuted :
-  exists l, (forall p, In p l -> exists a, pamt p = VAmt a) /\ subtotal l = Err EOther.
-Proof.
-  exists [wit_virt false; wit_virt true]. split.
-  - intros p [<-|[<-|[]]]; eexists; reflexivity.
-  - vm_compute. reflexivity.
-Qed.
-Print Assumptions subtotal_always_sums_refuted.
+Example subtotal_real_and_virtual_reports :
+  exists r, subtotal [wit_virt false; wit_virt true] = Ok [r] /\
+            pamt r = VAmt (mkAmt 2 0 false (Some [36])).
+Proof. eexists. split; vm_compute; reflexivity. Qed.
 
 (* ---- non-vacuity: the hypotheses are satisfiable ---- *)
 Definition ex_post (x d : Z) (py acct sym : str) (n : Z) : post :=
@@ -322,54 +317,44 @@ Example all_options_report :
 Proof. vm_compute. repeat split; eexists; split; reflexivity. Qed.
 
 (* ---- --by-payee --subtotal, --dow --subtotal: subtotal_posts behind another subtotalling
-   handler (stage_group GByPayeeSub / GDowSub).  While every row of the first handler holds
-   one commodity the second one is subtotal_posts as above: rows in account order, one per
-   account, grand total preserved. ---- *)
-Theorem resubtotal_plain : forall l rows,
-  Forall plain_post l -> resubtotal l = Ok rows ->
-  exists rows', subtotal l = Ok rows' /\
-    map pacct rows = map pacct rows' /\ map pamt rows = map pamt rows'.
-Proof. exact RegroupProofs.resubtotal_plain. Qed.
-Print Assumptions resubtotal_plain.
-
-Theorem resubtotal_plain_sums : forall l rows,
-  Forall plain_post l -> resubtotal l = Ok rows ->
+   handler (stage_group GByPayeeSub / GDowSub) is subtotal_posts once more on the rows of the
+   first one; a row holding several commodities counts with its whole value (/repo 790ae5e,
+   formerly F1709): rows in account order, one per account, each the exact sum of the rows
+   of that account, and the grand total is the plain register's. ---- *)
+Theorem resubtotal_sums : forall l rows,
+  resubtotal l = Ok rows ->
   StronglySorted str_lt (map pacct rows) /\
   (forall a, In a (map pacct rows) <-> exists p, In p l /\ pacct p = a) /\
+  (forall r c, In r rows -> (den (pamt r) c == sum_den (filter (acct_is (pacct r)) l) c)%Q) /\
   (forall c, (sum_den rows c == sum_den l c)%Q).
-Proof. exact RegroupProofs.resubtotal_plain_sums. Qed.
-Print Assumptions resubtotal_plain_sums.
+Proof. exact RegroupProofs.resubtotal_sums. Qed.
+Print Assumptions resubtotal_sums.
 
-(* finding: a row of the first handler that holds two commodities is a posting with a null
-   post.amount (its value is in xdata.compound_value), and subtotal_posts::operator() reads
-   post.amount: the row counts as nothing.  `A: Food 10 EUR, Cash -10 EUR, Food $5, Bank $-5`
-   under --by-payee --subtotal reports Bank $-5, Cash -10 EUR, Food 0: the grand total is
-   $-5 -10 EUR, the plain register's is 0.  The full statement "the grand total is preserved"
-   is false of the faithful model. *)
+Theorem by_payee_subtotal_total : forall l rows c,
+  stage_group GByPayeeSub l = Ok rows -> (sum_den rows c == sum_den l c)%Q.
+Proof. exact RegroupProofs.by_payee_subtotal_total. Qed.
+Print Assumptions by_payee_subtotal_total.
+
+Theorem dow_subtotal_total : forall l rows c,
+  stage_group GDowSub l = Ok rows -> (sum_den rows c == sum_den l c)%Q.
+Proof. exact RegroupProofs.dow_subtotal_total. Qed.
+Print Assumptions dow_subtotal_total.
+
+(* the former witnesses: `A: Food 10 EUR, Cash -10 EUR, Food $5, Bank $-5` reports Food with
+   both commodities, also when Food already has an entry (which used to abort the report) *)
 Definition wit_resub : list post :=
   [ex_post 0 18630 [65] [70] [69] 10; ex_post 0 18630 [65] [67] [69] (-10);
    ex_post 3 18630 [65] [70] [36] 5;  ex_post 3 18630 [65] [66] [36] (-5)].
 
-Theorem resubtotal_sums_refuted :
-  exists l rows c, (forall p, In p l -> exists a, pamt p = VAmt a) /\
-    stage_group GByPayeeSub l = Ok rows /\ ~ (sum_den rows c == sum_den l c)%Q.
-Proof.
-  exists wit_resub. eexists. exists (Some [36]). split; [|split].
-  - intros p [<-|[<-|[<-|[<-|[]]]]]; eexists; reflexivity.
-  - vm_compute. reflexivity.
-  - intros H. vm_compute in H. discriminate.
-Qed.
-Print Assumptions resubtotal_sums_refuted.
+Definition c_usd : option comm := Some [36].
+Definition c_eur : option comm := Some [69].
 
-(* and when such a row arrives after another posting to the same account the report fails
-   ("Cannot add an uninitialized amount to a balance"): no sums at all *)
-Theorem resubtotal_always_reports_refuted :
-  exists l, (forall p, In p l -> exists a, pamt p = VAmt a) /\
-    (exists r, by_payee l = Ok r) /\ stage_group GByPayeeSub l = Err EOther.
+Example resubtotal_multi_commodity_row_counts :
+  (exists rows, stage_group GByPayeeSub wit_resub = Ok rows /\ length rows = 3%nat /\
+     (sum_den rows c_usd == sum_den wit_resub c_usd)%Q /\ (sum_den rows c_eur == sum_den wit_resub c_eur)%Q) /\
+  (exists rows, stage_group GByPayeeSub
+     (ex_post 6 18629 [48] [70] [36] 3 :: ex_post 6 18629 [48] [66] [36] (-3) :: wit_resub) = Ok rows /\
+     length rows = 3%nat).
 Proof.
-  exists (ex_post 6 18629 [48] [70] [36] 3 :: ex_post 6 18629 [48] [66] [36] (-3) :: wit_resub). split; [|split].
-  - intros p [<-|[<-|[<-|[<-|[<-|[<-|[]]]]]]]; eexists; reflexivity.
-  - eexists. vm_compute. reflexivity.
-  - vm_compute. reflexivity.
+  split; eexists; (split; [vm_compute; reflexivity|]); repeat split; vm_compute; reflexivity.
 Qed.
-Print Assumptions resubtotal_always_reports_refuted.
